@@ -116,12 +116,22 @@ func c13(c *orch.Ctx) (*report.Result, error) {
 			prof.MaxControllers, prof.MultiFile, prof.MultiPkg = 4, true, true
 			prof.RouteStyle = "clean"
 			prof.SameNameTypes = i%3 == 0 // same-named declarations in several packages: ties for any name-keyed ordering
+			if i%5 == 4 {
+				// few types: about half of these projects have no enum model at all
+				prof.ParamTypeLevel, prof.Models = 1, 1
+			}
 			p := synth.Gen(rng.New(c.Seed, "C13", fmt.Sprint(i)), prof, fmt.Sprintf("p%04d", i), lab.ModPath)
 			if i%2 == 1 {
 				p.Config.OpenAPI = "3.1.0"
 			}
 			// the experimental generated enum validators put the enum value lists into the routes file
 			p.Config.EnumValidator = i%4 < 2
+			// the constants of every other enum are declared in two files of their package
+			for ei := range p.Enums {
+				if ei%2 == 0 {
+					p.Enums[ei].SplitConsts = true
+				}
+			}
 			projects = append(projects, p)
 		}
 	}
